@@ -58,6 +58,22 @@ def c_rp_hash_of_other_string(s, r):
     o = s.origin
     cands = [o, o + "/", o.split("://")[-1], "https://" + s.rp_id, s.rp_id + ":443", authsim.b64u(s.challenge), s.cd_type, authsim.b64u(s.cred_id), " "]
     s.sign_rp_id = r.choice([c for c in cands if c != s.rp_id])
+B64STD = "ABCDEFGHIJKLMNOPQRSTUVWXYZabcdefghijklmnopqrstuvwxyz0123456789+/"
+
+
+def _sn_nonce_alias(s, r):
+    # the nonce is compared as TEXT with the Base64 encoding of the digest: other texts that a decoder would map to the same 32 bytes are other texts
+    def spare(n_):
+        def f(good):
+            body = good.rstrip("=")
+            return body[:-1] + B64STD[B64STD.index(body[-1]) | n_] + "=" * (len(good) - len(body))
+        return f
+    fns = [spare(1), spare(2), spare(3), lambda g: g.replace("+", "-").replace("/", "_") if ("+" in g or "/" in g) else g.rstrip("="), lambda g: g.rstrip("="), lambda g: g + "=", lambda g: g + "\n",
+           lambda g: " " + g, lambda g: g[:20] + "\n" + g[20:], lambda g: g + "====", lambda g: g[:-1] + "=" + g[-1:] if False else g + " "]
+    fn = r.choice(fns)
+    s.k["sn_nonce_fn"] = lambda good: (fn(good) if fn(good) != good else good + "=")
+
+
 def _shadowed(fault):
     def f(s, r):
         fault(s, r)
@@ -217,6 +233,23 @@ def tpm_extra_hash(s, r):
 def tpm_signed_other_cert_info(s, r): s.k["tpm_signed_cert_info"] = b"\xff\x54\x43\x47\x80\x17" + bytes(60)
 def tpm_subject(s, r): s.k["tpm_subject"] = regsim.name("AIK")
 def tpm_san_absent(s, r): s.k["tpm_san"] = None
+def tpm_attrs_in_subject(s, r):
+    # the TCG device attributes belong in the subject ALTERNATIVE name and the subject is empty: a certificate that carries them in its subject (with or without a SAN, all or
+    # some of them, next to other attributes) meets neither rule
+    from cryptography import x509 as _x
+    from cryptography.x509.oid import ObjectIdentifier as _O, NameOID as _N
+    tcg = [_x.NameAttribute(_O("2.23.133.2.1"), "id:414D4400"), _x.NameAttribute(_O("2.23.133.2.2"), "model-x"), _x.NameAttribute(_O("2.23.133.2.3"), "id:00010002")]
+    v = r.choice(["all-three-no-san", "all-three-no-san", "all-three-with-san", "two-no-san", "three-and-cn-no-san", "reordered-no-san", "one-rdn-no-san"])
+    attrs = list(tcg)
+    if v == "two-no-san":
+        attrs = tcg[:2]
+    if v == "three-and-cn-no-san":
+        attrs = tcg + [_x.NameAttribute(_N.COMMON_NAME, "AIK")]
+    if v == "reordered-no-san":
+        attrs = tcg[::-1]
+    s.k["tpm_subject"] = _x.Name([_x.RelativeDistinguishedName(attrs)]) if v == "one-rdn-no-san" else _x.Name(attrs)
+    if v != "all-three-with-san":
+        s.k["tpm_san"] = None
 def tpm_san_unknown_vendor(s, r):
     # not in the TCG vendor-id registry (incl. the id the FIDO conformance tools use, test ids, near misses of registered ids)
     s.k["tpm_manufacturer"] = r.choice(["id:FFFFFFF0", "id:414d4400", "414D4400", "id:414D440", "id:FFFFF1D0", "id:00000000", "id:FFFFFFFF", "id:414D4401", "id:494E5444", "ID:414D4400"])
@@ -289,7 +322,7 @@ FORMAT_FAULTS = {
         "extradata-other-hash": tpm_extra_hash, "extradata-other-authdata": signed_other_ad, "extradata-other-clientdata": signed_other_cdh,
         "name-of-other-pubarea": tpm_name_other_pub_area, "name-alg-prefix-mismatch": tpm_name_prefix, "name-hash-other-alg": tpm_name_hash_alg,
         "signed-by-other-key": att_other_key, "signed-other-certinfo": tpm_signed_other_cert_info, "wrong-scheme": att_wrong_scheme,
-        "aik-subject-not-empty": tpm_subject, "aik-san-absent": tpm_san_absent, "aik-unknown-vendor": tpm_san_unknown_vendor, "aik-san-no-model": tpm_san_no_model,
+        "aik-subject-not-empty": tpm_subject, "aik-san-absent": tpm_san_absent, "aik-device-attributes-in-the-subject": tpm_attrs_in_subject, "aik-unknown-vendor": tpm_san_unknown_vendor, "aik-san-no-model": tpm_san_no_model,
         "aik-eku-wrong": tpm_eku_wrong, "aik-eku-absent": tpm_eku_absent, "aik-ca-true": tpm_bc_ca, "aik-basic-constraints-absent": tpm_bc_absent,
         "ecc-curve-unmappable": set_k(tpm_curve=0x0001), "name-alg-unmappable": set_k(tpm_name_alg_raw="SM3_256"),
         "alg-es384-genuinely-signed-with-sha384": alg_es384_really_signed, "alg-unregistered-es384": tpm_alg_foreign(-35), "alg-unregistered-es256k": tpm_alg_foreign(-47), "alg-of-other-family-eddsa": tpm_alg_foreign(-8),
@@ -321,6 +354,7 @@ FORMAT_FAULTS = {
         "leaf-cn-other-san-pattern": lambda s, r: s.k.update(sn_cn=r.choice(["integrity.attacker.example", "attest.android.com.evil.example", "Attest.Android.Com "]),
                                                               sn_san=[r.choice(["*.com", "*", "*.*.com", "attest.android.*", "a*.[a-z]ndroid.co?", "attest.android.com.evil.example", "*.attest.android.com"])]),
         "nonce-non-ascii": lambda s, r: s.k.update(sn_nonce=r.choice(["\u0410AAA", "\u00e9", "n\u043ence", "AAAA\u200b", "\U0001f600", "\u0391\u0392\u0393\u0394" * 11, "AAAA\u00a0"])),
+        "nonce-another-text-that-decodes-to-the-digest": _sn_nonce_alias,
         "nonce-not-a-string": lambda s, r: s.k.update(sn_nonce=r.choice([5, None, True, ["AAAA"], {"nonce": "AAAA"}, 1.5])),
         "timestamp-in-another-unit": lambda s, r: s.k.update(sn_timestamp=r.choice([s.now - 2, float(s.now) - 1.5, (s.now - 2) * 10 ** 6, (s.now - 2) * 10 ** 9, (s.now - 2) // 60, (s.now - 2) * 1000 - 2 ** 32, (s.now - 2) * 1000 + 2 ** 32,
                                                                                    -((s.now - 2) * 1000), (s.now - 2) * 1000 + 2 ** 64])),
@@ -464,6 +498,25 @@ def ch_proxy_certificate(s, r):
         proxy = regsim.make_cert(proxy_name, ee_name, leaf.public_key(), ee_key, ca=None, exts=[(pci, True)] + [(e.value, e.critical) for e in leaf.extensions if not isinstance(e.value, x509.BasicConstraints)])
         return [regsim.der(proxy), regsim.der(ee)] + [regsim.der(c) for c in reversed(pki.inters)]
     s.k["x5c_override"] = x5c
+def ch_out_of_date_leaf_beside_valid_sibling(s, r):
+    # x5c = [A, B, intermediates...]: A carries the attestation key and is outside its validity period; B is a fault-free certificate of the same issuer (over another key).
+    # A's subject may coincide with a name that occurs elsewhere in the list (its issuer's, B's, the root's): x5c[0] is the attestation certificate whatever the names say,
+    # and the chain - validity included - is judged from IT
+    s.n_inter = max(1, s.n_inter)
+    sib_key = regsim.ec_key("valid_sibling")
+    when = r.choice([(T0 - 400 * DAY, T0 - 1), (T0 + 60, T0 + 400 * DAY), (T0 - 400 * DAY, T0 - 30 * DAY)])
+    subj = r.choice(["issuer", "issuer", "own", "sibling", "root"])
+    pos = r.choice([1, 1, "last"])
+    def x5c(pki, leaf):
+        sib_name = x509.Name([x509.NameAttribute(NameOID.COUNTRY_NAME, "US"), x509.NameAttribute(NameOID.ORGANIZATION_NAME, "Example"), x509.NameAttribute(NameOID.ORGANIZATIONAL_UNIT_NAME, "Authenticator Attestation"),
+                              x509.NameAttribute(NameOID.COMMON_NAME, "Sibling attestation certificate")])
+        keep = [(e.value, e.critical) for e in leaf.extensions]
+        name_ = {"issuer": pki.issuer_name, "own": leaf.subject, "sibling": sib_name, "root": pki.root.subject}[subj]
+        a_ = regsim.make_cert(name_, pki.issuer_name, leaf.public_key(), pki.issuer_key, nb=when[0], na=when[1], ca=None, exts=keep)
+        b_ = regsim.make_cert(sib_name, pki.issuer_name, sib_key.public_key(), pki.issuer_key, ca=None, exts=keep)
+        inter = [regsim.der(c) for c in reversed(pki.inters)]
+        return [regsim.der(a_), regsim.der(b_)] + inter if pos == 1 else [regsim.der(a_)] + inter + [regsim.der(b_)]
+    s.k["x5c_override"] = x5c
 def ch_path_length_exceeded(s, r):
     # root -> CA-A (pathLenConstraint 0) -> CA-B -> leaf: CA-A may not have a CA below it
     s.n_inter = 2
@@ -516,7 +569,7 @@ CHAIN_FAULTS = {
     "attacker-ca-first-genuine-chain-as-intermediates": ch_attacker_ca_first,
     "impostor-root-clone-closing-x5c": ch_impostor_clone_closing_x5c, "proxy-certificate-issued-by-an-end-entity-certificate": ch_proxy_certificate, "path-length-exceeded": ch_path_length_exceeded,
     "path-length-exceeded:expired-leaf": ch_path_length_exceeded_and(ch_expired_leaf), "path-length-exceeded:not-yet-valid-leaf": ch_path_length_exceeded_and(ch_future_leaf),
-    "expired-root:redated-copy-of-the-root-closing-x5c": ch_expired_root_redated_copy,
+    "expired-root:redated-copy-of-the-root-closing-x5c": ch_expired_root_redated_copy, "out-of-date-leaf-beside-a-valid-sibling-certificate": ch_out_of_date_leaf_beside_valid_sibling,
     "impostor-root-same-name:aki-with-issuer-and-serial-only": ch_aki_issuer_serial_only(ch_impostor_root), "expired-leaf:aki-with-issuer-and-serial-only": ch_aki_issuer_serial_only(ch_expired_leaf), "expired-leaf:valid-since-the-epoch": ch_expired_leaf_since_epoch, "not-yet-valid-leaf:valid-until-9999": ch_future_leaf_forever,
     "expired-intermediate:leaf-valid-until-9999": ch_expired_inter_leaf_forever, "expired-root:leaf-valid-until-9999": ch_expired_root_leaf_forever, "self-signed-certificate-over-the-credential-key": ch_surrogate_self_signed, "pinned-leaf-expired": ch_pinned_leaf_expired, "pinned-leaf-not-yet-valid": ch_pinned_leaf_future,
 }
@@ -525,7 +578,7 @@ for _n in ("expired-leaf", "not-yet-valid-leaf", "expired-intermediate", "expire
     CHAIN_FAULTS[_n + ":leaf-with-unrecognised-extensions"] = _decorated(CHAIN_FAULTS[_n])
 # chain faults whose no-anchor (pass-through) variant is not simply "accepted"
 # chain faults whose x5c necessarily holds more than one certificate (fido-u2f statements hold exactly one)
-MULTI_CERT_FAULTS = {"proxy-certificate-issued-by-an-end-entity-certificate", "path-length-exceeded", "path-length-exceeded:expired-leaf", "path-length-exceeded:not-yet-valid-leaf",
+MULTI_CERT_FAULTS = {"proxy-certificate-issued-by-an-end-entity-certificate", "out-of-date-leaf-beside-a-valid-sibling-certificate", "path-length-exceeded", "path-length-exceeded:expired-leaf", "path-length-exceeded:not-yet-valid-leaf",
                      "expired-root:redated-copy-of-the-root-closing-x5c", "impostor-root-clone-closing-x5c"}
 NO_PASSTHROUGH_VARIANT = {"impostor-root-same-name", "proxy-certificate-issued-by-an-end-entity-certificate", "impostor-root-clone-closing-x5c", "impostor-root-same-name:aki-with-issuer-and-serial-only", "impostor-root-same-name:leaf-with-unrecognised-extensions", "attacker-ca-first-genuine-chain-as-intermediates", "self-signed-certificate-over-the-credential-key"}
 
